@@ -248,6 +248,9 @@ func (r *Run) Violation(caseID, sig, what string, detail any) {
 		return
 	}
 	dir := filepath.Join(Root(), "replays", r.Prop)
+	if os.Getenv("VERIF_NO_EVIDENCE") != "" {
+		dir = filepath.Join(os.TempDir(), "verif-selftest-replays", r.Prop)
+	}
 	os.MkdirAll(dir, 0o755)
 	name := sanitize(sig)
 	if len(name) > 80 {
@@ -361,7 +364,7 @@ func (r *Run) Finish(rule string, minNontrivial int, exhaustive bool) {
 		"wall_s":      time.Since(r.start).Seconds(),
 		"violations":  len(r.violations),
 	}
-	if r.OnlyCase == "" {
+	if r.OnlyCase == "" && os.Getenv("VERIF_NO_EVIDENCE") == "" {
 		dir := filepath.Join(Root(), "evidence")
 		os.MkdirAll(dir, 0o755)
 		b, _ := json.MarshalIndent(evd, "", " ")
